@@ -74,6 +74,9 @@ class Constraints(object):
     done = set()
     for x, st in list(self.st.items()):
       if x not in done:
+        # No base is its own complement, so a position forced complementary to itself is unsatisfiable
+        if x in self.wc[x]:
+          raise ValueError("{} is constrained to be complementary to itself".format( self.name[x] ))
         # Constraint must match all equal ...
         for y in self.eq[x]:
           assert y not in done, (x, y)
